@@ -237,7 +237,7 @@ func load(c *Check, wasm bool) (*loaded, error) {
 }
 
 var initAllow = []string{
-	"internal/oserror", "unicode/utf8", "strings", "path", "internal/filepathlite", "io/fs", "path/filepath", "context",
+	"internal/oserror", "unicode/utf8", "strings", "iter", "path", "internal/filepathlite", "io/fs", "path/filepath", "context",
 	modPath + "/markdown", modPath, modPath + "/zz_verif_wasm", modPath + "/cmd/gtree",
 }
 
